@@ -72,7 +72,8 @@ def call(function, *args, **kwargs):
     """("ok", value) or ("exc", exception) — every Exception of the system under test is an outcome."""
     try:
         return "ok", function(*args, **kwargs)
-    except Exception as error:  # noqa: B902 - the oracle decides what an exception means
+    except (Exception, SystemExit) as error:  # noqa: B902 - the oracle decides what an exception means
+        # SystemExit too: a library call that ends the process (a rule evaluated as Python calling exit()) is an outcome
         return "exc", error
 
 
